@@ -186,4 +186,10 @@ def run(prog, tier):
     # frames are reached through copies that share their payload with the stored ones)
     import p_c06
     p_c06.column_rules(prog, res, rule='column-atomic')
+    # the updaters run after the store: a positional look-up that their own guard does not cover throws on a
+    # state the guard let through, i.e. after the object was modified
+    import indexsites
+    ups = [f for f in prog.repo_funcs() if f.qname in ('ezc3d::c3d::updateHeader', 'ezc3d::c3d::updateParameters')]
+    n = indexsites.const_accessor_rule(prog, res, ups, rule_name='updater-positions')
+    res.minimum('guarded constant positions in the updaters', n, 4)
     return res
